@@ -11,6 +11,7 @@ from __future__ import annotations
 import random
 import struct
 
+from vlib import exa
 from vlib import refwire as rw
 from vlib import scen
 from vlib.mon import Result
@@ -179,6 +180,72 @@ def resolve_reload(case):
         else:
             out.append(st)
     return out
+
+
+def two_neighbor_text(which: tuple) -> str:
+    """a configuration file with one process and the neighbors named in `which` ('a': 127.0.0.1 on @PORT@, 'b': 127.0.0.2 on @PORT2@)"""
+    out = 'process helper {\n    run /bin/true;\n    encoder json;\n}\n'
+    for name, peer, port, rid in (('a', '127.0.0.1', '@PORT@', '10.0.0.1'), ('b', '127.0.0.2', '@PORT2@', '10.0.0.1')):
+        if name not in which:
+            continue
+        out += exa.neighbor_text(peer=peer, local='127.0.0.1', rid=rid, las=65000, pas=65001 if name == 'a' else 65002, hold=90, families=[(1, 1)],
+                                 extra=f'    connect {port};\n    passive false;\n    adj-rib-out true;\n',
+                                 body=f'    static {{\n        route 10.{1 if name == "a" else 2}.0.0/24 next-hop 192.0.2.1;\n    }}\n    api for-{name} {{\n        processes [ helper ];\n        neighbor-changes;\n    }}\n')
+    return out
+
+
+def two_neighbor_cases(r: random.Random, n: int) -> list:
+    """two neighbors; reloads which remove one of them, put it back, change it - the other one must not notice, and the API
+    must see up / down alternate for each of them"""
+    out = []
+    for i in range(n):
+        steps = [['accept', 40.0, 0], ['establish'], ['accept', 40.0, 1], ['establish', {'asn': 65002}], ['wait_quiet', 1.0, 20.0]]
+        present = {'a', 'b'}
+        for _ in range(r.randrange(2, 5)):
+            victim = r.choice(['a', 'b'])
+            if victim in present and len(present) == 2:
+                present.discard(victim)
+                steps += [['mark', f'remove-{victim}'], ['reload', two_neighbor_text(tuple(sorted(present)))], ['sleep', r.choice([0.5, 1.5])], ['wait_quiet', 1.0, 20.0]]
+            elif victim not in present:
+                present.add(victim)
+                steps += [['mark', f'readd-{victim}'], ['reload', two_neighbor_text(tuple(sorted(present)))], ['accept', 40.0, 0 if victim == 'a' else 1], ['establish', {'asn': 65001 if victim == 'a' else 65002}], ['wait_quiet', 1.0, 20.0]]
+            else:
+                steps += [['mark', 'reload-same'], ['reload'], ['sleep', 0.5]]
+        steps += [['sleep', 1.0], ['mark', 'end']]
+        out.append({'kind2': 'two-neighbors', 'config': {'hold': 90, 'families': [(1, 1)]}, 'config_text': two_neighbor_text(('a', 'b')), 'extra_listeners': 1, 'steps': steps, 'kinds': ['two-neighbors'], 'mode': 'active', 'vtimeout': 400.0, 'wall': 120.0, 'idx': 9000 + i})
+    return out
+
+
+def judge_two(res: Result, case, rec):
+    """per neighbor: RFC transitions only, and on the API every up is followed by a down before the next up"""
+    wit = {'steps': [[x if not isinstance(x, str) or len(x) < 80 else x[:80] + '...' for x in st] for st in case['steps']], 'notes': rec['notes']}
+    if any(n_[1] in ('no-connection', 'not-established') for n_ in rec['notes']) or not any(e['kind'] == 'mark' and e.get('name') == 'end' for e in rec['events']):
+        res.count('two-neighbors:scenario-did-not-complete')
+        return
+    state, up = {}, {}
+    ok = True
+    for e in rec['events']:
+        if e['kind'] == 'fsm':
+            pid = e['pid']
+            if state.get(pid, e['src']) != e['src']:
+                res.violation('C05/trace-discontinuity', f'FSM.change from {e["src"]} but this peer was in {state.get(pid)}', dict(wit, event=e), 'two-neighbors')
+                ok = False
+            if not rw.fsm_allowed(e['src'], e['dst']):
+                res.violation(f'C05/transition:{e["src"]}->{e["dst"]}', f'transition {e["src"]}->{e["dst"]} is not in the RFC 4271 relation', dict(wit, event=e), 'two-neighbors')
+                ok = False
+            state[pid] = e['dst']
+        elif e['kind'] == 'api-up':
+            if up.get(e['peer']):
+                res.violation('C05/up-without-down', f'API "up" for a neighbor that is already up (no "down" in between): {e["peer"][:40]}', dict(wit, event=e, api=[(x['kind'], x['peer'][:22], x['t']) for x in rec['events'] if x['kind'] in ('api-up', 'api-down')]), 'two-neighbors')
+                ok = False
+            up[e['peer']] = True
+        elif e['kind'] == 'api-down':
+            up[e['peer']] = False
+        elif e['kind'] == 'reactor-crash':
+            res.violation('C05/reactor-crash', 'the reactor main loop crashed: ' + e.get('error', ''), wit, 'two-neighbors')
+            ok = False
+    if ok:
+        res.ok('two-neighbors', ('two', tuple(st[1] for st in case['steps'] if st[0] == 'mark')))
 
 
 def plan(tier, seed):
@@ -350,6 +417,14 @@ def run_shard(desc):
         judge(res, case, rec)
         if i < 2:
             res.sample({'mode': case['mode'], 'kinds': case['kinds'], 'trace': [f'{e["src"]}>{e["dst"]}' for e in rec['events'] if e['kind'] == 'fsm'][:14]}, limit=3)
+    # two neighbors in one file, one of them removed / put back by reloads
+    if desc['shard'] % 4 == 0:
+        for case in two_neighbor_cases(r, 2 if desc.get('tier') == 'quick' else 8):
+            status, rec = run(case)
+            if status != 'ok':
+                res.count('two-neighbors:lab-' + status)
+                continue
+            judge_two(res, case, rec)
     return res
 
 
